@@ -5,8 +5,14 @@ from eglib import graphs
 
 
 def cases(classes=7, max_v=6, max_e=10):
-    def mk(g, memb, opt, extra):
+    def mk(g, memb, opt, extra, scale=None, fill=0):
         nv = g["nv"]
+        if scale:
+            g = dict(g, scale=scale)
+            if memb:
+                scale["hub"][0] = memb[0] % nv      # the vertex with very many links is a member
+        if fill or scale:
+            return {"g": g, "uni": [x % nv for x in memb], "opt": opt, "extra": extra, "fill": fill}
         # "uni" may name a vertex more than once: Universe(vertices=...) takes each once
         return {"g": g, "uni": [x % nv for x in memb], "opt": opt, "extra": extra}
 
@@ -16,6 +22,10 @@ def cases(classes=7, max_v=6, max_e=10):
         st.lists(st.integers(0, max_v - 1), max_size=max_v),
         st.integers(0, 511),
         st.integers(0, 7),
+        # scaled-up worlds: a member with 70 / 300 links (the leaves are members in every other case), and
+        # universes whose first 258 / 300 members are isolated fillers (the generated members come after them)
+        graphs.scales(hubs=(70, 300), chains=(), rate=60),
+        st.sampled_from([0] * 60 + [258, 300]),
     )
 
 
@@ -54,5 +64,15 @@ def build(case):
     from edgegraph.structure import Universe
 
     vs, ls = graphs.build(case["g"])
-    u = Universe(vertices=[vs[m] for m in case["uni"]])
+    members = [vs[m] for m in case["uni"]]
+    leaves = graphs.scale_layout(case["g"])[0]
+    if len(leaves) and (case["opt"] & 1 or len(case["uni"]) % 2):
+        members += [vs[i] for i in leaves]
+    if case.get("fill"):
+        from edgegraph.structure import Vertex
+
+        fillers = [Vertex(attributes={"i": 20000 + k}) for k in range(case["fill"])]
+        members = fillers + members
+        vs.extend(fillers)      # part of the world (after the generated vertices and the hub leaves)
+    u = Universe(vertices=members)
     return vs, ls, u
